@@ -157,6 +157,7 @@ const sentinelBase = uint64(1) << 40
 // and records which ids it saw.
 type idHandler struct {
 	table    []uint8
+	mod      int // when > 0 the table is indexed by id % mod
 	mu       sync.Mutex
 	seen     []int
 	sentinel chan uint64
@@ -172,8 +173,12 @@ func (h *idHandler) handle(id uint64) gexchange.Feedback {
 	h.mu.Lock()
 	h.seen = append(h.seen, int(id))
 	h.mu.Unlock()
-	if int(id) < len(h.table) {
-		return gexchange.Feedback(h.table[id])
+	ix := int(id)
+	if h.mod > 0 {
+		ix = ix % h.mod
+	}
+	if ix < len(h.table) {
+		return gexchange.Feedback(h.table[ix])
 	}
 	return gexchange.FeedbackUnspecified
 }
@@ -409,6 +414,9 @@ func modeLibp2p() {
 		var hB *idHandler
 		var handlers []*idHandler
 		var pubIDs []int
+		rawOps := false
+		// every script starts from "no handler installed" (the model's state after NewConnection)
+		B.conn.SetConsensusHandler(ctx, nil)
 		for _, op := range strings.Fields(line) {
 			switch {
 			case strings.HasPrefix(op, "S:"):
@@ -417,13 +425,15 @@ func modeLibp2p() {
 					hB = nil
 					B.conn.SetConsensusHandler(ctx, nil)
 				} else {
-					hB = &idHandler{table: parseTable(arg)}
+					hB = &idHandler{table: parseTable(arg), mod: 64}
 					handlers = append(handlers, hB)
 					B.conn.SetConsensusHandler(ctx, hB)
 				}
 			case op == "U":
+				rawOps = true
 				_ = B.host.PubSub().UnregisterTopicValidator(tmlibp2p.VerifTopicConsensus)
 			case op == "RI":
+				rawOps = true
 				_ = B.host.PubSub().RegisterTopicValidator(tmlibp2p.VerifTopicConsensus, tmlibp2p.VerifIgnoreMessage)
 			case strings.HasPrefix(op, "P:"):
 				payload, err := hex.DecodeString(op[2:])
@@ -444,17 +454,20 @@ func modeLibp2p() {
 				die("bad op %q", op)
 			}
 		}
-		// End-of-case barrier: restore an accepting handler on B, push a sentinel through, then a grace period.
-		acc := &idHandler{table: func() []uint8 {
-			t := make([]uint8, 65536)
-			for i := range t {
-				t[i] = 1
-			}
-			return t
-		}()}
-		_ = B.host.PubSub().UnregisterTopicValidator(tmlibp2p.VerifTopicConsensus)
-		_ = B.host.PubSub().RegisterTopicValidator(tmlibp2p.VerifTopicConsensus, tmlibp2p.VerifIgnoreMessage)
+		// End-of-case barrier: make B accept again, push a sentinel through, then a grace period.
+		acc := &idHandler{table: full}
+		if rawOps {
+			// the case manipulated the registry directly: put a known accepting validator back
+			_ = B.host.PubSub().UnregisterTopicValidator(tmlibp2p.VerifTopicConsensus)
+			_ = B.host.PubSub().RegisterTopicValidator(tmlibp2p.VerifTopicConsensus,
+				tmlibp2p.VerifConsensusMessageValidator(B.conn, acc))
+		}
 		B.conn.SetConsensusHandler(ctx, acc)
+		if rawOps {
+			_ = B.host.PubSub().UnregisterTopicValidator(tmlibp2p.VerifTopicConsensus)
+			_ = B.host.PubSub().RegisterTopicValidator(tmlibp2p.VerifTopicConsensus,
+				tmlibp2p.VerifConsensusMessageValidator(B.conn, acc))
+		}
 		sentinel++
 		sid := sentinel
 		publish(A, []byte{1, 1, 0, 0, byte(sid >> 8), byte(sid)})
